@@ -24,12 +24,77 @@ import (
 //   a:pub:<S|L>              a publishes QoS 1 to x/a (self delivery + direct PUBACK)
 //   a:ack                    a acknowledges everything outstanding
 //   fault:<k>                the k-th next conn.Write on a's connection fails (E4: every k)
+//
+// E3 scenario "c34conc" (arg: <act>+<act>...;wb=..,pend=..,mps=..): p (v4), q (v4) and a (v5,
+// subscribed to x/# at QoS 1) are connected, then the actions run concurrently and every
+// interleaving of the connection goroutines and a's write loop up to the deviation bound is
+// executed: publishes queued for a by other connections (one or two per segment, oversize,
+// QoS 0/1) against packets written directly by a's own connection goroutine (PINGRESP,
+// SUBACK + retained replay, PUBACK + self delivery). The same two monitors are evaluated at
+// the first quiescence (nothing is sent afterwards: a later write would flush the buffer).
 
 func c34Payload(sz, tag string) string {
 	if sz == "L" {
 		return tag + strings.Repeat("L", 60)
 	}
 	return tag
+}
+
+// c34ReportedVsWritten compares, for one connection, the packets reported through
+// OnPacketSent with the packets that reached the connection. OnPacketSent's byte slice is
+// empty on the direct-write path (the buffer was drained by WriteTo), so packets are
+// compared by (type, packet id, payload tag). Every reported packet must have been written
+// (written may contain more: a packet whose write returned an error is not reported but may
+// still leave the buffer later; the property does not forbid that). ordered (sequential
+// histories): the reported packets are a subsequence of the written ones, missing lists the
+// reported packets from the first one that is not on the connection. Unordered (concurrent
+// schedules: OnPacketSent runs outside the client lock, so two writers may report in the
+// opposite order of their writes, which the property does not forbid): multiset inclusion.
+func c34ReportedVsWritten(events []world.HookEvent, cl *world.Client, ordered bool) (rep, wr, missing []string) {
+	for _, e := range events {
+		if e.Name == "OnPacketSent" && e.Client == cl.ID {
+			rep = append(rep, c34PacketName(e.Type&15, e.PID, e.Tag, ordered))
+		}
+	}
+	cl.Poll()
+	for _, p := range cl.Recv {
+		wr = append(wr, c34PacketName(p.Type, p.PacketID, string(p.Payload), ordered))
+	}
+	if !ordered {
+		left := map[string]int{}
+		for _, w := range wr {
+			left[w]++
+		}
+		for _, r := range rep {
+			if left[r] > 0 {
+				left[r]--
+			} else {
+				missing = append(missing, r)
+			}
+		}
+		return rep, wr, missing
+	}
+	j := 0
+	for _, w := range wr {
+		if j < len(rep) && rep[j] == w {
+			j++
+		}
+	}
+	return rep, wr, rep[j:]
+}
+
+func c34PacketName(typ byte, pid uint16, payload string, plain bool) string {
+	if typ == ref.PUBLISH && !plain {
+		return fmt.Sprintf("PUBLISH#%d(%s)", pid, c34Tag(payload))
+	}
+	return fmt.Sprintf("%s#%d", ref.TypeNames[typ], pid)
+}
+
+func c34Tag(payload string) string {
+	if i := strings.IndexByte(payload, 'L'); i > 0 {
+		return payload[:i]
+	}
+	return payload
 }
 
 func c34Run(arg string) explore.HistFn {
@@ -133,28 +198,8 @@ func c34Run(arg string) explore.HistFn {
 			}
 			// (1) reported-as-sent == written, per connection
 			for _, cl := range h.All {
-				// OnPacketSent's byte slice is empty on the direct-write path (the buffer was
-				// drained by WriteTo), so packets are compared by (type, packet id) sequence.
-				var rep, wr []string
-				for _, e := range h.W.Events {
-					if e.Name == "OnPacketSent" && e.Client == cl.ID {
-						rep = append(rep, fmt.Sprintf("%s#%d", ref.TypeNames[e.Type&15], e.PID))
-					}
-				}
-				cl.Poll()
-				for _, p := range cl.Recv {
-					wr = append(wr, fmt.Sprintf("%s#%d", ref.TypeNames[p.Type], p.PacketID))
-				}
-				// every reported packet must have been written, in order (written may contain
-				// more: a packet whose write returned an error is not reported but may still
-				// leave the buffer later; the property does not forbid that)
-				j := 0
-				for _, w := range wr {
-					if j < len(rep) && rep[j] == w {
-						j++
-					}
-				}
-				if j < len(rep) || cl.Leftover() > 0 {
+				rep, wr, missing := c34ReportedVsWritten(h.W.Events, cl, true)
+				if len(missing) > 0 || cl.Leftover() > 0 {
 					cause := "other"
 					switch {
 					case faulted:
@@ -219,8 +264,189 @@ func c34Run(arg string) explore.HistFn {
 	}
 }
 
+// ---- E3: direct writes of a connection goroutine against the write loop draining the queue ----
+
+type c34Msg struct {
+	tag      string
+	qos      byte
+	oversize bool
+}
+
+type c34ConcEnv struct {
+	w       *world.World
+	a, p, q *world.Client
+	mps     int
+}
+
+type c34ConcAct struct {
+	do       func(e *c34ConcEnv)
+	entitled []c34Msg // what a is owed because of the action (a is subscribed to x/# throughout)
+}
+
+func c34Segment(ver byte, pks ...ref.Packet) []byte {
+	var b []byte
+	for _, pk := range pks {
+		b = append(b, ref.Encode(pk, ver, ref.EncOpts{})...)
+	}
+	return b
+}
+
+var c34ConcActs = map[string]c34ConcAct{
+	// other connections queue publishes for a
+	"pubP1": {func(e *c34ConcEnv) { e.p.Send(pub("x/a", "m1", 0, 0)) }, []c34Msg{{"m1", 0, false}}},
+	"pubP2": {func(e *c34ConcEnv) { // two publishes in one segment: the queue holds one while the other is written
+		e.p.SendRaw(c34Segment(4, pub("x/a", "m1", 0, 0), pub("x/b", "m2", 0, 0)))
+	}, []c34Msg{{"m1", 0, false}, {"m2", 0, false}}},
+	"pubP3": {func(e *c34ConcEnv) {
+		e.p.SendRaw(c34Segment(4, pub("x/a", "m1", 0, 0), pub("x/b", "m2", 0, 0), pub("x/c", "m3", 0, 0)))
+	}, []c34Msg{{"m1", 0, false}, {"m2", 0, false}, {"m3", 0, false}}},
+	"pubP2q1": {func(e *c34ConcEnv) { // QoS 1: p's own connection goroutine writes PUBACKs directly as well
+		e.p.SendRaw(c34Segment(4, pub("x/a", "n1", 1, 11), pub("x/b", "n2", 1, 12)))
+	}, []c34Msg{{"n1", 1, false}, {"n2", 1, false}}},
+	"pubPburst": {func(e *c34ConcEnv) { // the last queued packet is refused (larger than a's Maximum Packet Size)
+		e.p.SendRaw(c34Segment(4, pub("x/a", "m1", 0, 0), pub("x/b", c34Payload("L", "m2"), 0, 0)))
+	}, []c34Msg{{"m1", 0, false}, {"m2", 0, true}}},
+	"pubQ1": {func(e *c34ConcEnv) { e.q.Send(pub("x/q", "q1", 0, 0)) }, []c34Msg{{"q1", 0, false}}},
+	// a's own connection goroutine writes directly
+	"pingA": {func(e *c34ConcEnv) { e.a.Send(ref.Packet{Type: ref.PINGREQ}) }, nil},
+	"ping2A": {func(e *c34ConcEnv) {
+		e.a.SendRaw(c34Segment(5, ref.Packet{Type: ref.PINGREQ}, ref.Packet{Type: ref.PINGREQ}))
+	}, nil},
+	"pubA1": {func(e *c34ConcEnv) { e.a.Send(pub("x/s", "s1", 1, 7)) }, []c34Msg{{"s1", 1, false}}}, // PUBACK + self delivery
+	"pubA2": {func(e *c34ConcEnv) { e.a.Send(pub("y/s", "s2", 2, 8)) }, nil},                        // PUBREC, no delivery
+	"subA":  {func(e *c34ConcEnv) { e.a.Send(sub(3, "r/#", 1)) }, []c34Msg{{"r1", 0, false}}},       // SUBACK + retained r/1
+	"unsubA": {func(e *c34ConcEnv) {
+		e.a.Send(ref.Packet{Type: ref.UNSUBSCRIBE, PacketID: 4, Filters: []ref.Filter{{Filter: "z"}}})
+	}, nil},
+}
+
+func c34ConcRun(arg string) explore.RunFn {
+	actsArg, cfgArg, _ := strings.Cut(arg, ";")
+	acts := splitActs(actsArg)
+	wb, pend, mps := 64, 8, 0
+	fmt.Sscanf(cfgArg, "wb=%d,pend=%d,mps=%d", &wb, &pend, &mps)
+	return func(prefix []int) explore.Outcome {
+		w := world.New(prefix, world.Config{
+			Caps: func(c *mqtt.Capabilities) { c.MaximumClientWritesPending = int32(pend) },
+			Opts: func(o *mqtt.Options) { o.ClientNetWriteBufferSize = wb },
+		})
+		defer w.End()
+		e := &c34ConcEnv{w: w, mps: mps}
+		e.p = w.Connect(world.ConnectPacket("p", 4, true))
+		e.q = w.Connect(world.ConnectPacket("q", 4, true))
+		ca := world.ConnectPacket("a", 5, true)
+		if mps > 0 {
+			ca.Props = append(ca.Props, ref.Prop{ID: ref.PMaximumPacketSize, Num: uint32(mps)})
+		}
+		e.a = w.Connect(ca)
+		all := []*world.Client{e.p, e.q, e.a}
+		rp := pub("r/1", "r1", 0, 0)
+		rp.Retain = true
+		e.q.Do(rp)
+		e.a.Do(sub(1, "x/#", 1))
+		for _, c := range all {
+			c.Poll()
+		}
+		before := len(e.a.Recv)
+		var entitled []c34Msg
+		for _, a := range acts {
+			act := c34ConcActs[a]
+			act.do(e)
+			for _, m := range act.entitled {
+				m.oversize = m.oversize && mps > 0 && mps < 80
+				entitled = append(entitled, m)
+			}
+		}
+		w.Explore(true)
+		w.Run()
+		w.Explore(false)
+		o := explore.Outcome{Points: w.X.Points, Divergence: w.X.Divergence(), Steps: w.X.Steps(), StepLog: w.X.StepLog, Counters: map[string]int{}}
+		o.Viol = runtimeViolations(w)
+		// (1) the broker is quiescent: everything reported as sent is on the connection
+		for _, cl := range all {
+			if cl.Closed() {
+				continue
+			}
+			rep, wr, missing := c34ReportedVsWritten(w.Events, cl, false)
+			if len(missing) > 0 || cl.Leftover() > 0 {
+				shape := "queued-publish"
+				for _, m := range missing {
+					if !strings.HasPrefix(m, "PUBLISH#") {
+						shape = "direct-write"
+					}
+				}
+				if len(missing) == 0 {
+					shape = "partial-packet"
+				}
+				o.Viol = append(o.Viol, explore.Violation{Key: "stranded:concurrent:" + shape, Msg: fmt.Sprintf("client %s, no write fault: packets reported as sent (OnPacketSent) %v but packets written to the connection at quiescence %v (+%d partial bytes); not written: %v (%s)", cl.ID, rep, wr, cl.Leftover(), missing, arg)})
+			}
+		}
+		// (2) every QoS 0 message a is owed was written, reported as sent or reported as dropped
+		have, reportedSent, dropped := map[string]bool{}, map[string]bool{}, map[string]bool{}
+		for _, p := range e.a.Recv {
+			if p.Type == ref.PUBLISH {
+				have[c34Tag(string(p.Payload))] = true
+			}
+		}
+		for _, ev := range w.Events {
+			if ev.Client != "a" {
+				continue
+			}
+			switch {
+			case ev.Name == "OnPublishDropped":
+				dropped[c34Tag(ev.Tag)] = true
+				o.Counters["drops_reported"]++
+			case ev.Name == "OnPacketSent" && ev.Type == ref.PUBLISH:
+				reportedSent[c34Tag(ev.Tag)] = true
+			}
+		}
+		for _, m := range entitled {
+			if have[m.tag] || dropped[m.tag] || reportedSent[m.tag] || m.qos > 0 {
+				continue // QoS > 0: still held in the session for redelivery, not dropped
+			}
+			why := "concurrent"
+			if m.oversize {
+				why = "concurrent-oversize-qos0"
+			}
+			o.Viol = append(o.Viol, explore.Violation{Key: "drop-unreported:" + why, Msg: fmt.Sprintf("message %s (qos %d, oversize=%v) was neither written to a nor reported as dropped to the hooks (%s)", m.tag, m.qos, m.oversize, arg)})
+		}
+		// non-vacuity: where the directly written packets landed relative to the queued publishes
+		var obs strings.Builder
+		npub, pubsBefore := 0, 0
+		for _, p := range e.a.Recv[before:] {
+			if p.Type == ref.PUBLISH {
+				npub++
+			}
+		}
+		for _, p := range e.a.Recv[before:] {
+			fmt.Fprintf(&obs, "%s#%d ", ref.TypeNames[p.Type], p.PacketID)
+			if p.Type == ref.PUBLISH {
+				obs.WriteString(c34Tag(string(p.Payload)) + " ")
+				pubsBefore++
+				continue
+			}
+			switch {
+			case npub == 0:
+			case pubsBefore == 0:
+				o.Counters["direct_before_queued"]++
+			case pubsBefore < npub:
+				o.Counters["direct_between_queued"]++
+			default:
+				o.Counters["direct_after_queued"]++
+			}
+		}
+		fmt.Fprintf(&obs, "| dropped=%v | p:", explore.SortedKeys(dropped))
+		for _, p := range e.p.Recv {
+			fmt.Fprintf(&obs, " %s#%d", ref.TypeNames[p.Type], p.PacketID)
+		}
+		o.Obs = obs.String()
+		return o
+	}
+}
+
 func init() {
 	explore.RegisterBFS("c34", c34Run)
+	explore.RegisterDFS("c34conc", c34ConcRun)
 	explore.Register("C34", func(c *explore.Ctx) {
 		c.Rep.Level = "model_checking"
 		c.Rep.Assumption("sequential histories under the default schedule; a client may send several packets in one segment so that direct writes happen while its outbound queue is non-empty")
@@ -231,6 +457,46 @@ func init() {
 			cfgs = []string{"wb=64,pend=8,mps=48,deep", "wb=8,pend=2,mps=48,deep", "wb=64,pend=1,mps=48,deep", "wb=8,pend=1,mps=48,deep", "wb=2048,pend=2,mps=48,deep", "wb=64,pend=8,mps=200,deep", "wb=32,pend=2,mps=200,deep"}
 			per = 2 * time.Minute
 			depth = 5
+		}
+		c.Rep.Assumption("E3: threads serialised by the cooperative scheduler; every departure from the default scheduler costs one deviation; judged at the first quiescence after the concurrent actions")
+		// the cheap decisive scenarios first: a direct write against the write loop taking the last queued publish
+		type cs struct {
+			arg string
+			pb  int
+		}
+		conc := []cs{{"pubP2+pingA;wb=64,pend=8", 2}, {"pubP2+pingA;wb=8,pend=8", 2}, {"pubPburst+pingA;wb=64,pend=8,mps=48", 2}, {"pubP2+pubA1;wb=8,pend=8", 1}, {"pubP2+subA;wb=64,pend=2", 1}}
+		cper := 7 * time.Second
+		if !c.Quick() {
+			conc = []cs{{"pubP2+pingA;wb=64,pend=8", 3}, {"pubP2+pingA;wb=8,pend=8", 3}, {"pubPburst+pingA;wb=64,pend=8,mps=48", 3}, {"pubP2+pubA1;wb=8,pend=8", 2}, {"pubP2+subA;wb=64,pend=2", 2},
+				{"pubP3+ping2A;wb=8,pend=8", 2}, {"pubP3+ping2A;wb=64,pend=2", 2}, {"pubP2q1+pingA;wb=64,pend=8", 2}, {"pubP2q1+pubA1;wb=64,pend=8", 2}, {"pubP2+pubQ1+pingA;wb=8,pend=8", 2}, {"pubP2+pubQ1+pingA;wb=64,pend=1", 2},
+				{"pubPburst+pubA1;wb=8,pend=8,mps=48", 2}, {"pubPburst+subA;wb=64,pend=8,mps=48", 2}, {"pubP2+pubA2;wb=8,pend=2", 3}, {"pubP2+unsubA;wb=64,pend=8", 3}, {"pubP1+pubQ1+subA;wb=8,pend=1", 2}}
+			cper = 20 * time.Second
+		}
+		tot := map[string]int64{}
+		for _, s := range conc {
+			if c.Expired() {
+				c.Rep.Capped("scenario c34conc/" + s.arg + " not started (deadline)")
+				continue
+			}
+			var bounds []explore.Bounds
+			for pb := 0; pb <= s.pb; pb++ {
+				bounds = append(bounds, explore.Bounds{Preempt: pb})
+			}
+			if _, st := explore.IterateDFS(c, "c34conc", s.arg, bounds, cper); st != nil {
+				for k, v := range st.Counters {
+					tot[k] += v
+				}
+			}
+		}
+		for k, v := range tot {
+			c.Rep.Count("c34conc_"+k, v)
+		}
+		if fullRun() && len(tot) > 0 {
+			for _, k := range []string{"direct_before_queued", "direct_between_queued", "direct_after_queued", "drops_reported"} {
+				if tot[k] == 0 {
+					c.Rep.Add(explore.Violation{Key: "internal:vacuous:c34conc_" + k, Msg: fmt.Sprintf("C34 never exercised %s: %v", k, tot)})
+				}
+			}
 		}
 		for _, cf := range cfgs {
 			explore.RunBFS(c, "c34", cf, depth, per)
